@@ -16,7 +16,7 @@ RULE = ("(A) every arrival sequence of <= L segments over {0,1,2,3}*MSS at a TCP
         "transmission log)")
 ASSUMPTIONS = [
     "paths are FIFO with constant delay (no reordering of ACKs); drops are chosen per transmission index",
-    "explicit horizon of 4000 simulated seconds and 20000 kernel steps: a run that has not completed by then is reported",
+    "explicit horizon of 4000 + 100 per MSS simulated seconds and 20000 + 400 per MSS kernel steps: a run that has not completed by then is reported",
 ]
 MSS = 512
 
@@ -45,8 +45,14 @@ def plan(tier, seed):
     for cc in ("reno", "cubic"):
         for size in ((2, 4) if quick else (2, 3, 4, 6)):
             cfgs.append(dict(kind="e2e", cc=cc, delays=[1, 1], est=0.5, size=size, K=8 if quick else 12, twin=1))
+    # long flows under periodic fault patterns (one fixed execution each): state that only breaks after hundreds of segments
+    for cc in ("reno", "cubic"):
+        for (delays, est) in (([1, 1], 0.5), ([0.3, 0.1], 0.7), ([3, 5], 4)):
+            for size in (300, 1500):
+                for pat in ([0], [0] * 17 + [1], [0] * 23 + [2] + [0] * 7 + [1], [0] * 40 + [1, 1, 0, 0, 0, 2]):
+                    cfgs.append(dict(kind="e2e", cc=cc, delays=delays, est=est, size=size, K=10 ** 6, long={"pattern": pat}))
     return {"cfgs": cfgs, "budget": 3 if quick else 4,
-            "bound": "sink: sequences of <=%d segments; end to end: flows of 1..%d MSS, path delays (1,1),(1,3),(3,5),(.3,.1),(.1,.2),(0,0), initial RTT estimate .1/.25/.3/.5/.7/4, "
+            "bound": "48 long flows (300/1500 MSS) under periodic fault patterns; sink: sequences of <=%d segments; end to end: flows of 1..%d MSS, path delays (1,1),(1,3),(3,5),(.3,.1),(.1,.2),(0,0), initial RTT estimate .1/.25/.3/.5/.7/4, "
                      "<=%d faults (drop, or delivery delayed by 4) among the first %d data / ACK transmissions" % (6 if quick else 7, 6 if quick else 8, 3 if quick else 4, 12 if quick else 20)}
 
 
@@ -174,7 +180,8 @@ def exec_e2e(ch, cfg):
             sender2.out = Plain(sink2, cfg["delays"][0])
             sink2.out = Plain(sender2, cfg["delays"][1])
         steps = 0
-        while env.peek() < INF and env.peek() <= 4000 and steps < 20000:
+        tmax, smax = 4000 + 100 * cfg["size"], 20000 + 400 * cfg["size"]
+        while env.peek() < INF and env.peek() <= tmax and steps < smax:
             env.step()
             steps += 1
     except BaseException as e:  # noqa
@@ -196,7 +203,7 @@ def exec_e2e(ch, cfg):
     done = held == [[0, size]] and sender.last_ack == size
     if not done:
         why = "sink-incomplete" if held != [[0, size]] else "sender-acknowledged-mark-short-of-the-data"
-        if steps >= 20000 or env.peek() <= 4000:
+        if steps >= smax or env.peek() <= tmax:
             why += "-still-busy-at-the-horizon"
         res.bad("C16.complete", "%s:%s" % (tag, why), "flow %d bytes: sink %r last_ack %r at t=%r; drops %r" % (size, sink.recv_buffer, sender.last_ack, env.now, [(x[0], x[1]) for x in drops]))
         return res
